@@ -31,7 +31,7 @@ func (c20) Required() []string {
 func (c20) Cases(tier string, seed uint64) []core.Case {
 	n := 96
 	if tier == "thorough" {
-		n = 3000
+		n = 30000
 	}
 	r := core.NewRng(core.Mix(seed, 0xC20))
 	var out []core.Case
